@@ -181,7 +181,7 @@ impl Worker {
     if !self.snapshots.contains_key(&label) {
       let dir = self.scratch.sub(&format!("snap-{label}"));
       let index = idx::open(&self.world, &dir, cfg)?;
-      index.update()?;
+      util::watched(|| index.update())?;
       drop(index);
       self.snapshots.insert(label.clone(), dir);
     }
@@ -209,6 +209,8 @@ pub enum Commit {
   N6ThenT6,
   /// mature first, immature second
   T6ThenT5,
+  /// mature taproot commitment whose witness also carries an annex of several bytes
+  T6Annex,
 }
 
 #[derive(Clone, Copy, PartialEq, Debug)]
@@ -383,6 +385,7 @@ pub const TEMPLATES: &[Template] = &[
   tpl!("etch-commit-immature-then-mature", false, etch: etch(Name::High, Commit::T5ThenT6, Some(1000), TermsK::None)),
   tpl!("etch-commit-nontaproot-then-taproot", false, etch: etch(Name::High, Commit::N6ThenT6, Some(1000), TermsK::None)),
   tpl!("etch-commit-mature-then-immature", false, etch: etch(Name::High, Commit::T6ThenT5, Some(1000), TermsK::None)),
+  tpl!("etch-commit-with-annex", false, etch: etch(Name::High, Commit::T6Annex, Some(1000), TermsK::None)),
   tpl!("etch-abs-window-next", true, etch: etch(Name::High, Commit::T6, None, TermsK::AbsWindowNext)),
   tpl!("etch-rel-window-next", false, etch: etch(Name::High, Commit::T6, None, TermsK::RelWindowNext)),
   tpl!("etch-terms-nocap", false, etch: etch(Name::High, Commit::T6, None, TermsK::NoCap)),
@@ -551,7 +554,7 @@ impl Builder<'_> {
       let commitment = name.map(|n| Rune(n).commitment()).unwrap_or_default();
       let mut push_script = |bytes: &[u8]| txkit::push(script::Builder::new(), bytes).into_script().into_bytes();
       let (cop, bytes): (Option<OutPoint>, Vec<u8>) = match e.commit {
-        Commit::T6 | Commit::SecondInput => (Some(OutPoint { txid: fa, vout: (4 * q + 2) as u32 }), commitment.clone()),
+        Commit::T6 | Commit::SecondInput | Commit::T6Annex => (Some(OutPoint { txid: fa, vout: (4 * q + 2) as u32 }), commitment.clone()),
         Commit::WrongBytes => {
           let mut c = commitment.clone();
           c.push(1);
@@ -563,7 +566,10 @@ impl Builder<'_> {
         Commit::T5ThenT6 | Commit::N6ThenT6 | Commit::T6ThenT5 => (None, vec![]),
       };
       if let Some(cop) = cop {
-        let w = txkit::tapscript_witness(&push_script(&bytes));
+        let mut w = txkit::tapscript_witness(&push_script(&bytes));
+        if e.commit == Commit::T6Annex {
+          w.push([0x50u8, 0x01, 0x02]);
+        }
         if e.commit == Commit::SecondInput {
           ins.push((cop, w));
         } else {
@@ -1073,6 +1079,11 @@ pub const DENSE: &[(&str, DenseSpec)] = &[
     (&["mint-r0", "mint-r1"], "mint-r0"),
     (&["mint-r1", "mint-r0", "mint-r0-spending-r0"], "full"),
   ]),
+  ("burns-in-consecutive-blocks", &[
+    (&["etch-high-premine", "etch-commit-with-annex"], "full"),
+    (&["xfer-edict-to-opreturn", "xfer-r1-edict"], "full"),
+    (&["xfer-edict-to-opreturn", "xfer-cenotaph"], "full"),
+  ]),
   ("windows", &[
     (&["etch-abs-window-next", "etch-rel-window-next", "etch-terms-mixed"], "full"),
     (&["mint-r0", "mint-r1"], "mint-r0"),
@@ -1174,6 +1185,7 @@ fn run_dense(property: &'static str, cfg: &IndexCfg, events: bool, report: &mut 
 
 /// Indexes `blocks` on top of the prefix with the real index and the models in lock-step.
 pub fn run_blocks(w: &mut Worker, cfg: &IndexCfg, blocks: Vec<Vec<Transaction>>, e: &mut Exec, events: bool, batch: bool) {
+  util::set_context(json!({"suite": "runes", "cfg": cfg.label(), "history": e.rendered, "one_update": batch}).to_string());
   w.restore_prefix();
   let mut runes = RuneModel::default();
   let mut sats = SatModel::default();
@@ -1208,7 +1220,7 @@ pub fn run_blocks(w: &mut Worker, cfg: &IndexCfg, blocks: Vec<Vec<Transaction>>,
     if batch && bi + 1 < nblocks {
       continue;
     }
-    match util::catch(|| index.update()) {
+    match util::catch(|| util::watched(|| index.update())) {
       Ok(Ok(())) => {}
       Ok(Err(err)) => {
         e.fail("C16", "update/error", format!("Index::update returned an error on a valid chain: {err:#}"));
